@@ -10,7 +10,8 @@ if [ ! -x bin/bmcverif ] || [ -n "$(find checker -newer bin/bmcverif -name '*.go
   (cd checker && go build -o ../bin/bmcverif .)
 fi
 if [ -n "$VERIF_OUT" ]; then
-  mkdir -p "$VERIF_OUT" && cp known_findings.jsonl "$VERIF_OUT"/ 2>/dev/null || true
+  # (atomic: several checks may share one output directory)
+  mkdir -p "$VERIF_OUT" && cp known_findings.jsonl "$VERIF_OUT/.kf.$$" 2>/dev/null && mv -f "$VERIF_OUT/.kf.$$" "$VERIF_OUT/known_findings.jsonl" || true
   exec ./bin/bmcverif check -p "$1" -tier "${2:-quick}" -repo "${VERIF_REPO:-/repo}" -out "$VERIF_OUT"
 fi
 exec ./bin/bmcverif check -p "$1" -tier "${2:-quick}" -repo "${VERIF_REPO:-/repo}"
